@@ -97,7 +97,15 @@ func (f *DefineCondition) Call(s *slip.Scope, args slip.List, depth int) slip.Ob
 			slip.ErrorPanic(s, depth, "Can not redefine class %s.", name)
 		}
 	}
-	return DefConditionClass(s, string(name), supers, slotSpecs, args[3:], depth)
+	cc := DefConditionClass(s, string(name), supers, slotSpecs, args[3:], depth)
+	// The built in condition classes have ordinary functions as readers so
+	// the slot functions are defined here and not in DefConditionClass.
+	for _, sd := range cc.slotDefs {
+		sd.defReaderMethods(cc.name)
+		sd.defWriterMethods(cc.name)
+		sd.defAccessorMethods(cc.name)
+	}
+	return cc
 }
 
 // DefConditionClass defines a standard-class.
